@@ -11,7 +11,7 @@ FRAG_PRICES = [1.01, 1.5, 2.0, 3.0, 11.0, 1000.0]
 
 def resting_limit(c, tag, fl, market, strategy, bet_id, side=None, price=None, selection_id=1, status=None,
                   persistence=None, max_frags=2, allow_cancelled=True, price_values=None, client=None, trade=None,
-                  statuses=None, min_frags=0):
+                  statuses=None, min_frags=0, handicap=0):
     """a real LIMIT order resting at the exchange in an arbitrary state satisfying Inv:
     buckets >= 0 and 2dp, size_matched = sum(fragments), sum(buckets) <= size, remaining > 0"""
     side = side or c.choose("%s_side" % tag, ["BACK", "LAY"])
@@ -19,7 +19,7 @@ def resting_limit(c, tag, fl, market, strategy, bet_id, side=None, price=None, s
         price = c.pick("%s_price" % tag, price_values or pos.PRICES_K)
     size = c.cents("%s_size" % tag, 1, 1000000)
     persistence = persistence or c.choose("%s_persistence" % tag, ["LAPSE", "PERSIST", "MARKET_ON_CLOSE"])
-    order = cm.mk_limit(strategy, side, price, size, selection_id=selection_id, persistence=persistence, trade=trade)
+    order = cm.mk_limit(strategy, side, price, size, selection_id=selection_id, persistence=persistence, trade=trade, handicap=handicap)
     sim = order.simulated
     nf = c.choose("%s_fragments" % tag, list(range(min_frags, max_frags + 1)))
     frags = []
